@@ -38,11 +38,36 @@ type c09Case struct {
 
 var baseOverhangs = []string{"GGAG", "TACT", "AATG", "AGGT", "GCTT", "CGCT", "ATCC", "CAGA"}
 
+// Overhang alphabets for the junction symbols 1..8: in every table the eight words are distinct, none is its own
+// reverse complement and none the reverse complement of another - any of them is a valid junction design.
+// Besides the standard set: the windows of one repeating unit in ring order (a later overhang occurs, shifted,
+// inside two earlier ones written side by side), words that share all but the last letter, and words that are each
+// other's mirror image.
+var ovTables = [][]string{
+	baseOverhangs,
+	{"AACT", "GAAC", "TGAA", "CTGA", "ACTG", "GGAG", "TACT", "AATG"},
+	{"AAAC", "AAAG", "AAAT", "AACA", "AACC", "AACG", "AAGA", "AAGC"},
+	{"AACT", "TCAA", "AGGT", "TGGA", "GCCA", "ACCG", "CATT", "TTAC"},
+}
+var curOverhangs = baseOverhangs // set by concretise (one pool at a time per process)
+
+func init() {
+	for _, t := range ovTables {
+		seen := map[string]bool{}
+		for _, w := range t {
+			if w == rcDNA(w) || seen[w] || seen[rcDNA(w)] {
+				panic("polydrv: invalid overhang table")
+			}
+			seen[w] = true
+		}
+	}
+}
+
 func overhangDNA(o, m int) string {
 	if o <= m {
-		return baseOverhangs[o-1]
+		return curOverhangs[o-1]
 	}
-	return rcDNA(baseOverhangs[o-m-1])
+	return rcDNA(curOverhangs[o-m-1])
 }
 
 var c09Enzymes = []string{"BsaI", "BbsI", "BtgZI"}
@@ -76,9 +101,10 @@ type concretePool struct {
 	pool   []absFrag
 }
 
-func concretise(cs c09Case, rng *rand.Rand) concretePool {
+func concretise(cs c09Case, rng *rand.Rand, table int) concretePool {
 	cp := concretePool{enzyme: c09Enzymes[rng.Intn(3)], m: cs.M, pool: cs.Pool}
 	e := builtinEnzymes[cp.enzyme]
+	curOverhangs = ovTables[table%len(ovTables)] // consecutive pools take the alphabets in turn
 	for _, f := range cs.Pool {
 		for {
 			body := randDNA(rng, 12+rng.Intn(40))
@@ -201,7 +227,7 @@ func c09Child(args []string) {
 // run does not come back within the deadline.
 func c09RunPool(cs c09Case, idx, reps int, seed int64, deadline time.Duration, die func(c09Outcome)) c09Outcome {
 	rng := rand.New(rand.NewSource(seed*1000003 + int64(idx)))
-	cp := concretise(cs, rng)
+	cp := concretise(cs, rng, idx+int(seed%1000))
 	want := map[string]bool{}
 	for _, r := range cs.Rings {
 		want[canonCircular(cp.ringDNA(r))] = true
